@@ -1,5 +1,5 @@
 SPECIFICATION Spec
 CONSTANTS
-  L = 6
+  L = 5
 INVARIANT Props
 CHECK_DEADLOCK FALSE
